@@ -15,8 +15,13 @@ ops
   hsdup <src> <relay|flip|direct> [X|B]                        -> digest difference at A: after the relayed tunnel X-A
       completed, the relay hands A the stage-0 handshake packet of X once more in a fresh relay frame
       (byte-identical, or with one bit flipped)
+  xdirect <own|other> <allow|deny>                             -> `tun=<n> remote=<E|relay|elsewhere|none> lrelay=<0|1> xr=<0|1>`: A's
+      hostinfo for X is given the direct remote E, an authentic packet of X arrives through the relay, the remote and
+      the learned addresses of X are read back (then the tunnel is made relay-only again)
   reply                                                        -> digest difference at A when its tun emits a packet for X
-answer: `tun=<n> out=<t/s>node,…> del=<peers> roam=<peers> in=<peers> win=<peers> rs=<peers> lh=<0|1> pend=<0|1> used=<n> seen=<0|1>`
+answer: `tun=<n> out=<t/s>node,…> del=<peers> roam=<peers> in=<peers> win=<peers> rs=<peers> lh=<0|1> pend=<0|1> used=<n> ru=<names> seen=<0|1>`
+        (`ru`: the relay indexes marked used, by name: `r<peer>` a relay index on the tunnel with <peer>,
+         `<peer>` a hostinfo index, `zero`, `other`)
         (`seen`: the datagram handed to the relay contained the end-to-end plaintext;
          `xr`: A's hostinfo for X — a relay-only tunnel — has a direct underlay remote)
 
@@ -114,9 +119,16 @@ def render (s : St) (rx sender : Nat) (src : String) (effs : List Effect) (rsPee
   let inn := effs.filterMap (fun e => match e with | .markIn p => some (peerName p) | _ => none)
   let inn := inn.filter (fun p => !del.contains p)
   let used := (effs.filter (fun e => match e with | .relayUsed _ => true | .forward _ _ => true | _ => false)).length
+  -- names of the relay indexes marked used: the carrying index lives on the tunnel with the relay (R at
+  -- receiver A, X at receiver R); a forward goes out on R's relay index towards A; `reply` uses A's index on R
+  let ru := effs.filterMap (fun e => match e with
+    | .relayUsed _ => some (if rx == 0 then "rR" else "rX")
+    | .forward _ _ => some "rA"
+    | _ => none)
+  let ru := ru ++ (if extraUsed > 0 then ["rR"] else [])
   let lh := (!roam.isEmpty && s.lhRoam) || !del.isEmpty || forceLh
   let del := del ++ extraDel
-  s!"tun={tun} out={setStr (sortStr out)} del={setStr (sortStr (dedup del))} roam={setStr (sortStr roam)} in={setStr (sortStr (dedup inn))} win={setStr (sortStr (dedup inn))} rs={setStr rsPeers} lh={boolStr lh} pend={boolStr pend} used={used + extraUsed} seen=0 xr=0"
+  s!"tun={tun} out={setStr (sortStr out)} del={setStr (sortStr (dedup del))} roam={setStr (sortStr roam)} in={setStr (sortStr (dedup inn))} win={setStr (sortStr (dedup inn))} rs={setStr rsPeers} lh={boolStr lh} pend={boolStr pend} used={used + extraUsed} ru={setStr (sortStr (dedup ru))} seen=0 xr=0"
 
 /-- lookups of one level at receiver `rx`. `own` = the peer whose tunnel sealed this level. -/
 def mkLook (s : St) (rx : Nat) (relayedLevel : Bool) (src : String) (h base : SymHdr) (own : Nat)
@@ -201,6 +213,18 @@ def relayOnlyVerdict (impl : String) (onlyRelayFrames : Bool) (noRoam : List Str
 
 def andVerdict (a b : String) : String := if a == "ok" then b else a
 
+/-- C14 relay-usage oracle for an AUTHENTIC outer relay frame received by A on its relay index with R
+(`rR`): the frame marks exactly the index that carried it.  An inner packet that did not authenticate
+must not add (or substitute) any other index (`Props.C14.unauth_inner_marks_only_carrier`). -/
+def carrierOnlyVerdict (impl : String) (innerAuth : Bool) : String :=
+  let toks := impl.splitOn " "
+  let get (k : String) : String := ((toks.find? (·.startsWith (k ++ "="))).getD (k ++ "=?")).drop (k.length + 1) |>.toString
+  let ru := (get "ru").splitOn ","
+  if ru.any (fun x => x != "rR" && x != "-") then
+    (if innerAuth then "bad relay-used-wrong-index" else "bad unauth-inner-marked-relay-used")
+  else if !ru.contains "rR" then "bad relay-used-not-marked"
+  else "ok"
+
 def evalPkt (s : St) (kind src scope : String) (mutArgs : List String) (impl : String) : St × Out :=
   match kindInfo kind with
   | none => (s, badOp)
@@ -237,6 +261,9 @@ def evalPkt (s : St) (kind src scope : String) (mutArgs : List String) (impl : S
       let outerAuth := l1.authOK
       let innerAuth := match innerPkt with | some (.mk _ l2 _) => l2.authOK | none => false
       let unencrypted := oh.type == header_Handshake || oh.type == header_RecvError
+      -- the outer level reached `handleOutsideRelayPacket` (not dropped before the lookup, e.g. a source inside our own networks)
+      let carried := effs.any (fun e => match e with | .relayUsed _ => true | _ => false)
+      let carrierOnlyVerdict := fun (impl : String) (ia : Bool) => if carried then carrierOnlyVerdict impl ia else "ok"
       let verdict :=
         if unencrypted then "ok"
         else if !outerAuth then noEffectVerdict impl true
@@ -248,7 +275,8 @@ def evalPkt (s : St) (kind src scope : String) (mutArgs : List String) (impl : S
            else if get "del" != "-" then "bad unauth-inner-tunnel-closed"
            else if ((get "in").splitOn ",").contains "X" || ((get "win").splitOn ",").contains "X" then "bad unauth-inner-attributed"
            else if get "rs" != "-" then "bad unauth-relay-state"
-           else "ok")
+           else carrierOnlyVerdict impl false)
+        else if innerBase.isSome && rx == 0 then carrierOnlyVerdict impl true
         else "ok"
       let tag :=
         if unencrypted then "pkt:unencrypted-type"
@@ -353,6 +381,26 @@ def step (s : St) (args : List String) (impl : String) : St × Out :=
     (s', { model := model, verdict := relayOnlyVerdict impl true,
            tag := if !reached then "hsdup:not-reached" else if fresh then "hsdup:reestablish-over-relay"
                   else if mode == "relay" then "hsdup:already-seen" else "hsdup:garbled" })
+  | ["xdirect", _, allow] =>
+    if !s.ready then (s, badOp) else
+    if !s.live.contains 3 && !s.xGhost then (s, { model := "no-tunnel", tag := "triv:xdirect-no-tunnel" }) else
+    -- A's hostinfo for X holds the direct remote E; an AUTHENTIC data packet of X arrives through the relay
+    -- (`ViaSender{UdpAddr: R's address, IsRelayed}`): `Nebula.ViaRemote.handleHostRoaming` keeps the remote
+    -- (`Props.C15.relayed_via_never_roams`), nothing is learned.  (X's own packets still carry the old index
+    -- after a re-created tunnel: then nothing is delivered.)
+    let hostR : Nebula.ViaRemote.HostR := { remote := some (srcAddr "other" 3), lastRoamRemote := none }
+    let via : Nebula.ViaRemote.Via := { udp := srcAddr "own" 2, isRelayed := true }
+    let kept := (Nebula.ViaRemote.handleHostRoaming (allow != "deny") false hostR via).remote == hostR.remote
+    let tun := if s.xGhost then 0 else 1
+    let model := s!"tun={tun} remote={if kept then "E" else "relay"} lrelay=0 xr=0"
+    let toks := impl.splitOn " "
+    let get (k : String) : String := ((toks.find? (·.startsWith (k ++ "="))).getD (k ++ "=?")).drop (k.length + 1) |>.toString
+    let verdict :=
+      if get "remote" != "E" then "bad relayed-packet-changed-remote"
+      else if get "lrelay" != "0" then "bad relayed-via-recorded-as-remote learned"
+      else if get "xr" != "0" then "bad relayed-via-recorded-as-remote"
+      else "ok"
+    (s, { model := model, verdict := verdict, tag := s!"xdirect:{if tun == 1 then "delivered" else "not-delivered"}" })
   | ["reply"] =>
     if !s.ready then (s, badOp) else
     if !s.live.contains 3 && !s.xGhost then
